@@ -115,7 +115,8 @@ def h_encoded(ctx, n, skeleton=None):
     if ru[0] == "ok":
         ctx.check("raw_user", sym_eq(ru[1][0], user))
         ctx.check("raw_password", sym_eq(ru[1][1], password))
-        ctx.check("raw_host", sym_eq(ru[1][2], host))
+        # an authority with an empty host has the host ''; None is for URLs without an authority
+        ctx.check("raw_host", sym_eq(ru[1][2], host if host is not None else ("" if auth else None)))
         ctx.check("port-presence", (ru[1][3] is None) == (not port_text))
     else:
         ctx.check("accessor-ValueError-only-for-port", ru[1] == "ValueError" and bool(port_text), ru[1])
